@@ -399,6 +399,9 @@ def input_copied(cls, method, param, g, pure_methods_of=None):
         if isinstance(f, ast.Name) and f.id in mod_funcs:
             target = mod_funcs[f.id]
             params = [a.arg for a in target.args.args]
+        elif isinstance(f, ast.Name) and _imported_repo_function(sys.modules[owner.__module__], f.id) is not None:
+            target = _imported_repo_function(sys.modules[owner.__module__], f.id)
+            params = [a.arg for a in target.args.args]
         elif isinstance(f, ast.Attribute) and isinstance(f.value, ast.Name) and f.attr in meths and \
                 f.value.id in (self_name(enclosing_fn), "self", "cls", cls.__name__, owner.__name__):
             target = meths[f.attr][0]
@@ -422,9 +425,11 @@ def input_copied(cls, method, param, g, pure_methods_of=None):
                 if isinstance(n.ctx, ast.Store):
                     continue
                 par = pm.get(n)
-                # deepcopy(p)
-                if isinstance(par, ast.Call) and isinstance(par.func, ast.Name) and par.func.id == "deepcopy" \
-                        and par.args and par.args[0] is n:
+                # deepcopy(p) / copy.deepcopy(p)
+                if isinstance(par, ast.Call) and par.args and par.args[0] is n and (
+                        (isinstance(par.func, ast.Name) and par.func.id == "deepcopy") or
+                        (isinstance(par.func, ast.Attribute) and par.func.attr == "deepcopy"
+                         and isinstance(par.func.value, ast.Name) and par.func.value.id in ("copy", "_copy"))):
                     saw_copy[0] = True
                     continue
                 # helper(p, ...) with p as first positional argument
@@ -466,6 +471,23 @@ def input_copied(cls, method, param, g, pure_methods_of=None):
                 {"no_deepcopy": True, "and_the_method_is_not_pure": why, "problems": problems[:6]})
         return
     g.check(f"{label}: input deep-copied before any impure use", not problems, {"problems": problems[:6]})
+
+
+def _imported_repo_function(module, name):
+    """the FunctionDef of a plain function of another repository module that `module` imported under `name`"""
+    import inspect
+    import types
+    obj = getattr(module, name, None)
+    if not isinstance(obj, types.FunctionType) or not (obj.__module__ or "").startswith("pycaption"):
+        return None
+    try:
+        tree = module_ast_of(sys.modules[obj.__module__])
+    except Exception:
+        return None
+    for st in tree.body:
+        if isinstance(st, ast.FunctionDef) and st.name == obj.__name__:
+            return st
+    return None
 
 
 def _first_statement_copies(fn, param):
